@@ -57,9 +57,10 @@ var builderLayouts = map[string]builderLayout{
 }
 
 type bufWrite struct {
-	call  *ssa.Call
+	call  ssa.Instruction // the writing instruction (a call; a store for an element assignment)
 	width int
-	val   ssa.Value // value written (binary.Write operand, stripped of the interface conversion)
+	val   ssa.Value   // value written (binary.Write operand, stripped of the interface conversion)
+	elems []ssa.Value // a field written byte by byte ([]byte{a, b}, p[i], p[i+1] = a, b): the bytes in order
 }
 
 // bufferWrites: the writes into one bytes.Buffer of a straight-line builder.
@@ -73,9 +74,19 @@ func bufferWrites(fn *ssa.Function) (writes []bufWrite, buf ssa.Value, ok bool, 
 		if ws, end, ok := appendChain(fn); ok {
 			return ws, end, true, ""
 		}
+		// the header-first style: b := newPacket(T, n); b = AppendUintN(b, v); ...; return b
+		if ws, _, end, ok, why := headerFirstBuilder(fn); ok {
+			return ws, end, true, ""
+		} else if why != "" {
+			return nil, nil, false, why
+		}
 		// the positional style: p := make([]byte, K+len(data)); PutUintN(p[a:b], v); copy(p[K:], data)
 		if ws, ms, ok := positionalBuilder(fn); ok {
 			return ws, ms, true, ""
+		}
+		// a body laid out in a local array: var body [N]byte; PutUintN(body[a:b], v); body[i] = x; body[:]
+		if ws, body, ok := positionalArrayBody(fn); ok {
+			return ws, body, true, ""
 		}
 	}
 	sizes := types.SizesFor("gc", "amd64")
@@ -114,11 +125,13 @@ func bufferWrites(fn *ssa.Function) (writes []bufWrite, buf ssa.Value, ok bool, 
 			} else {
 				w.width = len(elems)
 				w.val = op.val
+				w.elems = elems
 			}
 		case "(*bytes.Buffer).WriteByte":
 			b = strip(op.stream)
 			w.width = 1
 			w.val = op.val
+			w.elems = []ssa.Value{op.val}
 		default:
 			return nil, nil, false, "string write into a packet buffer"
 		}
@@ -195,6 +208,32 @@ func c16Layout(c *Ctx) {
 				}
 			} else {
 				by, _ = strip(r.Results[0]).(*ssa.Call)
+			}
+			// header-first: the chain's end is the packet itself
+			if ec, isCall := buf.(*ssa.Call); isCall && strip(unspill(r.Results[0])) == ssa.Value(ec) {
+				if _, root, _, okh, _ := headerFirstBuilder(bodyFn); okh && root != nil {
+					bodyOK = true
+				}
+			}
+			// positional body: the array slice itself is the body, all writes precede the hand-over
+			if _, isSl := buf.(*ssa.Slice); isSl {
+				var bodyV ssa.Value
+				var at ssa.Instruction = r
+				if bodyFn == fn || wholeHelper {
+					if cp, ok := r.Results[0].(*ssa.Call); ok {
+						bodyV, at = strip(arg(cp, 1)), cp
+					}
+				} else {
+					bodyV = strip(r.Results[0])
+				}
+				if bodyV == buf {
+					bodyOK = true
+					for _, w := range writes {
+						if !dominatesInstr(w.call, at) {
+							bodyOK = false
+						}
+					}
+				}
 			}
 			if by != nil && calleeName(by) == "(*bytes.Buffer).Bytes" && recvOf(by) == buf {
 				bodyOK = true
@@ -278,6 +317,19 @@ func c16Header(c *Ctx) { c16HeaderAs(c, "C16/header") }
 
 func c16HeaderAs(c *Ctx, rule string) {
 	fn := c.Fn("cmd/rdpgw/protocol", "createPacket")
+	// header-first: createPacket = append(newPacket(pktType, len(data)), data...), where newPacket is
+	// verified (headerHelper) to produce type, reserved 0, uint32(8+n)
+	if ws, root, end, okh, _ := headerFirstBuilder(fn); okh && root != nil {
+		ti, li, _ := headerHelper(root.Call.StaticCallee())
+		h := root.Call.StaticCallee()
+		c.OK(rule, "createPacket widths", root.Pos(), "header fields 2+2+4 = 8 bytes (written by %s)", h.Name())
+		c.Check(ti < len(root.Call.Args) && strip(root.Call.Args[ti]) == ssa.Value(fn.Params[0]), rule, "createPacket type", root.Pos(), "type field = pktType parameter", "the type field is not the pktType parameter")
+		c.OK(rule, "createPacket reserved", root.Pos(), "reserved = 0")
+		c.Check(li < len(root.Call.Args) && isLenOf(root.Call.Args[li], fn.Params[1]), rule, "createPacket length", root.Pos(), "length field = len(data)+8 with a header of 8 bytes", "the length field is not len(data) + the header width")
+		c.Check(len(ws) == 1 && ws[0].width == -1 && ws[0].val == ssa.Value(fn.Params[1]), rule, "createPacket data", root.Pos(), "payload = the data parameter, written after the header", "the payload written is not the data parameter")
+		c.Check(end != nil, rule, "createPacket result", fn.Pos(), "returns the buffer's bytes after all writes", "does not return the assembled buffer")
+		return
+	}
 	writes, buf, ok, why := bufferWrites(fn)
 	if !ok {
 		c.Undecided(rule, "createPacket writes", fn.Pos(), "%s", why)
@@ -360,7 +412,7 @@ func c16HeaderAs(c *Ctx, rule string) {
 		if by, ok := strip(r.Results[0]).(*ssa.Call); ok && calleeName(by) == "(*bytes.Buffer).Bytes" && recvOf(by) == buf && dominatesInstr(writes[3].call, by) {
 			retOK = true
 		}
-		if strip(unspill(r.Results[0])) == buf && buf == ssa.Value(writes[3].call) {
+		if strip(unspill(r.Results[0])) == buf && isSameInstrValue(buf, writes[3].call) {
 			retOK = true // append style: the returned slice is the end of the chain
 		}
 		if positional && strip(unspill(r.Results[0])) == buf {
@@ -738,14 +790,41 @@ func appendChain(fn *ssa.Function) (writes []bufWrite, end ssa.Value, ok bool) {
 		return nil, nil, false
 	}
 	end = strip(unspill(rets[0].Results[0]))
-	v := end
+	writes, root, ok := appendChainFrom(end)
+	if !ok || root != nil {
+		return nil, nil, false
+	}
+	return writes, end, len(writes) > 0
+}
+
+// appendChainFrom walks the chain of AppendUintN / append calls that ends in `end` back to its
+// root. root == nil: the chain starts from an empty slice (make([]byte, 0, cap) or nil); otherwise
+// root is the call whose result the chain extends (a header helper, see headerHelper).
+func appendChainFrom(end ssa.Value) (writes []bufWrite, root *ssa.Call, ok bool) {
+	v := strip(unspill(end))
+	var endBlock *ssa.BasicBlock
+	if in, isIn := v.(ssa.Instruction); isIn {
+		endBlock = in.Block()
+	}
+	// a step of the chain must not be repeated on its own: outside loops, or in the very block of the
+	// chain's end (a packet assembled inside a relay loop, once per iteration)
+	looped := func(x *ssa.Call) bool { return inCycle(x.Block()) && x.Block() != endBlock }
 	for i := 0; i < 64; i++ {
 		switch x := v.(type) {
 		case *ssa.Call:
 			name := calleeName(x)
 			if bi, isB := x.Call.Value.(*ssa.Builtin); isB && bi.Name() == "append" && len(x.Call.Args) == 2 {
+				if looped(x) {
+					return nil, nil, false
+				}
+				if elems, isLit := sliceLitElems(x.Call.Args[1]); isLit {
+					// append(b, x, y): a field of as many bytes
+					writes = append([]bufWrite{{call: x, width: len(elems), val: x.Call.Args[1], elems: elems}}, writes...)
+					v = strip(unspill(x.Call.Args[0]))
+					continue
+				}
 				writes = append([]bufWrite{{call: x, width: -1, val: x.Call.Args[1]}}, writes...)
-				v = strip(x.Call.Args[0])
+				v = strip(unspill(x.Call.Args[0]))
 				continue
 			}
 			w := 0
@@ -757,22 +836,25 @@ func appendChain(fn *ssa.Function) (writes []bufWrite, end ssa.Value, ok bool) {
 			case "(encoding/binary.littleEndian).AppendUint64":
 				w = 8
 			default:
+				if _, _, isH := headerHelper(x.Call.StaticCallee()); isH {
+					return writes, x, true
+				}
 				return nil, nil, false
 			}
-			if inCycle(x.Block()) {
+			if looped(x) {
 				return nil, nil, false
 			}
 			writes = append([]bufWrite{{call: x, width: w, val: x.Call.Args[len(x.Call.Args)-1]}}, writes...)
-			v = strip(x.Call.Args[len(x.Call.Args)-2])
+			v = strip(unspill(x.Call.Args[len(x.Call.Args)-2]))
 			continue
 		case *ssa.MakeSlice:
 			if k, isC := constInt(x.Len); isC && k == 0 {
-				return writes, end, len(writes) > 0
+				return writes, nil, true
 			}
 			return nil, nil, false
 		case *ssa.Const:
 			if x.IsNil() {
-				return writes, end, len(writes) > 0
+				return writes, nil, true
 			}
 			return nil, nil, false
 		default:
@@ -780,4 +862,131 @@ func appendChain(fn *ssa.Function) (writes []bufWrite, end ssa.Value, ok bool) {
 		}
 	}
 	return nil, nil, false
+}
+
+// headerHelper: f(…, T uint16, …, n int, …) []byte returns exactly the 8-byte packet header for a
+// packet of type T whose body will have n bytes: type, reserved 0, uint32(8+n), appended to an empty
+// slice (newPacket). Returns the indices of the two parameters.
+func headerHelper(f *ssa.Function) (typeIdx, lenIdx int, ok bool) {
+	if f == nil || !IsFirstParty(f) || f.Blocks == nil || f.Signature.Recv() != nil {
+		return 0, 0, false
+	}
+	rets := returnsOf(f)
+	if len(rets) != 1 || len(rets[0].Results) != 1 {
+		return 0, 0, false
+	}
+	ws, root, okc := appendChainFromNoHelper(strip(unspill(rets[0].Results[0])))
+	if !okc || root != nil || len(ws) != 3 || ws[0].width != 2 || ws[1].width != 2 || ws[2].width != 4 {
+		return 0, 0, false
+	}
+	paramIdx := func(v ssa.Value) int {
+		v = strip(v)
+		for {
+			cv, isCv := v.(*ssa.Convert)
+			if !isCv {
+				break
+			}
+			v = strip(cv.X)
+		}
+		for i, p := range f.Params {
+			if v == ssa.Value(p) {
+				return i
+			}
+		}
+		return -1
+	}
+	ti := paramIdx(ws[0].val)
+	if k, isC := constInt(ws[1].val); !isC || k != 0 || ti < 0 {
+		return 0, 0, false
+	}
+	lv := strip(ws[2].val)
+	for {
+		cv, isCv := lv.(*ssa.Convert)
+		if !isCv {
+			break
+		}
+		lv = strip(cv.X)
+	}
+	bo, isBo := lv.(*ssa.BinOp)
+	if !isBo || bo.Op != token.ADD {
+		return 0, 0, false
+	}
+	li := -1
+	if k, isC := constInt(bo.X); isC && k == 8 {
+		li = paramIdx(bo.Y)
+	} else if k, isC := constInt(bo.Y); isC && k == 8 {
+		li = paramIdx(bo.X)
+	}
+	if li < 0 {
+		return 0, 0, false
+	}
+	return ti, li, true
+}
+
+// appendChainFromNoHelper: appendChainFrom without looking for a header helper at the root (used
+// by headerHelper itself).
+func appendChainFromNoHelper(end ssa.Value) (writes []bufWrite, root *ssa.Call, ok bool) {
+	v := end
+	for i := 0; i < 16; i++ {
+		switch x := v.(type) {
+		case *ssa.Call:
+			w := 0
+			switch calleeName(x) {
+			case "(encoding/binary.littleEndian).AppendUint16":
+				w = 2
+			case "(encoding/binary.littleEndian).AppendUint32":
+				w = 4
+			default:
+				return nil, nil, false
+			}
+			if inCycle(x.Block()) {
+				return nil, nil, false
+			}
+			writes = append([]bufWrite{{call: x, width: w, val: x.Call.Args[len(x.Call.Args)-1]}}, writes...)
+			v = strip(unspill(x.Call.Args[len(x.Call.Args)-2]))
+		case *ssa.MakeSlice:
+			k, isC := constInt(x.Len)
+			return writes, nil, isC && k == 0
+		default:
+			return nil, nil, false
+		}
+	}
+	return nil, nil, false
+}
+
+// headerFirstBuilder: fn returns a chain that extends newPacket(T, n) by exactly n bytes when n is a
+// constant (a response builder), or by a variable tail (createPacket). Returns the body writes, the
+// root call and the chain's end.
+func headerFirstBuilder(fn *ssa.Function) (writes []bufWrite, root *ssa.Call, end ssa.Value, ok bool, why string) {
+	rets := returnsOf(fn)
+	if len(rets) != 1 || len(rets[0].Results) == 0 {
+		return nil, nil, nil, false, ""
+	}
+	end = strip(unspill(rets[0].Results[0]))
+	writes, root, okc := appendChainFrom(end)
+	if !okc || root == nil || len(writes) == 0 {
+		return nil, nil, nil, false, ""
+	}
+	_, li, _ := headerHelper(root.Call.StaticCallee())
+	if li >= len(root.Call.Args) {
+		return nil, nil, nil, false, ""
+	}
+	if n, isC := constInt(root.Call.Args[li]); isC {
+		sum := int64(0)
+		for _, w := range writes {
+			if w.width < 0 {
+				return nil, nil, nil, false, "a variable-length field follows a header that declares a constant body length"
+			}
+			sum += int64(w.width)
+		}
+		if sum != n {
+			return nil, nil, nil, false, fmt.Sprintf("the header declares a body of %d bytes but %d bytes are appended", n, sum)
+		}
+	}
+	return writes, root, end, true, ""
+}
+
+func isSameInstrValue(v ssa.Value, in ssa.Instruction) bool {
+	iv, ok := in.(ssa.Value)
+	return ok && iv == v
 }
